@@ -19,10 +19,11 @@ import (
 const c10Bid = ptttype.Bid(10)
 
 var (
-	c10Env      *bbsEnv
-	c10BoardID  = &ptttype.BoardID_t{'W', 'h', 'o', 'A', 'm', 'I'}
-	c10BoardDir string
-	c10OrigAttr ptttype.BrdAttr
+	c10Env       *bbsEnv
+	c10BoardID   = &ptttype.BoardID_t{'W', 'h', 'o', 'A', 'm', 'I'}
+	c10BoardDir  string
+	c10OrigAttr  ptttype.BrdAttr
+	c10OrigPause uint8
 )
 
 func c10User(uid13 []byte) *ptttype.UserecRaw {
@@ -63,9 +64,13 @@ func c10Setup() {
 	b, err := cache.GetBCache(c10Bid)
 	must(err)
 	c10OrigAttr = b.BrdAttr
+	c10OrigPause = b.FastRecommendPause
 }
 
 func c10Run(args [][]string) []string {
+	if op := ai(args[0][0]); op == 2 || op == 3 {
+		return c10RunBoard(args, op == 3) // c10board.go: several articles, several commenters, all comment-related board attributes
+	}
 	if ai(args[0][0]) != 1 || len(args) < 7 {
 		return []string{"9"}
 	}
@@ -97,7 +102,8 @@ func c10Run(args [][]string) []string {
 	must(os.WriteFile(artPath, art, 0o644))
 	board, err := cache.GetBCache(c10Bid)
 	must(err)
-	attr := c10OrigAttr &^ (ptttype.BRD_ALIGNEDCMT | ptttype.BRD_IPLOGRECMD | ptttype.BRD_NORECOMMEND)
+	attr := c10OrigAttr &^ (ptttype.BRD_ALIGNEDCMT | ptttype.BRD_IPLOGRECMD | ptttype.BRD_NORECOMMEND | ptttype.BRD_NOBOO | ptttype.BRD_NOFASTRECMD)
+	board.FastRecommendPause = c10OrigPause
 	if ai(flags[0]) != 0 {
 		attr |= ptttype.BRD_ALIGNEDCMT
 	}
@@ -166,6 +172,7 @@ func init() {
 		teardown: func() {
 			if b, err := cache.GetBCache(c10Bid); err == nil {
 				b.BrdAttr = c10OrigAttr
+				b.FastRecommendPause = c10OrigPause
 			}
 			c10Env.close()
 		},
